@@ -38,7 +38,7 @@ Print Assumptions C05_crash_prefix.
    prefix of COMPLETE operations — all or nothing. (A restart is not single-commit: the initialisation
    of the running filter may re-write persisted windows with direct Puts; a crash between them leaves a
    prefix of those writes, which C05_crash covers.) *)
-Theorem C05_crash_atomic : forall W ops k st, (forall e, ~ In (Prune e) ops) ->
+Theorem C05_crash_atomic : forall W ops k st, (forall kh e, ~ In (Prune kh e) ops) ->
   (forall o, In o ops -> is_restart o = false) ->
   exists n, fst (exec_crash W ops k st) = fst (run W (firstn n ops) st).
 Proof. exact crash_atomic. Qed.
@@ -61,13 +61,13 @@ Print Assumptions C05_crash_restart_free.
 
 (* A failed commit leaves the disk unchanged (single-batch operations) / exactly at the batches
    committed before it (prune). *)
-Theorem C05_fault_disk : forall W o d m, (forall e, o <> Prune e) -> is_restart o = false ->
+Theorem C05_fault_disk : forall W o d m, (forall kh e, o <> Prune kh e) -> is_restart o = false ->
   fst (plan W o d m) <> [] -> fst (exec_fault W [o] 0 (d, m)) = d.
 Proof. exact fault_disk_single. Qed.
 Print Assumptions C05_fault_disk.
 
-Theorem C05_fault_disk_prune : forall W e d m k, (k < length (prune_plan W d e))%nat ->
-  fst (exec_fault W [Prune e] k (d, m)) = apply_batches d (firstn k (prune_plan W d e)).
+Theorem C05_fault_disk_prune : forall W kh e d m k, (k < length (prune_plan W d kh e))%nat ->
+  fst (exec_fault W [Prune kh e] k (d, m)) = apply_batches d (firstn k (prune_plan W d kh e)).
 Proof. exact fault_disk_prune. Qed.
 Print Assumptions C05_fault_disk_prune.
 
@@ -162,8 +162,8 @@ Definition chain14 : list op :=
   map (fun i => Store (blk (N.of_nat i) (100 + N.of_nat i) (if Nat.eqb i 0 then 0 else 99 + N.of_nat i) [N.of_nat i]))
       (seq 0 14).
 Definition history : list op :=
-  chain14 ++ [Revert; Revert; Revert; Store (blk 11 211 110 [5]); Snapshot; SetL1 7; Prune 3; Restart false;
-              Prune 6; Store (blk 12 212 211 [6]); Restart true; Revert; Revert].
+  chain14 ++ [Revert; Revert; Revert; Store (blk 11 211 110 [5]); Snapshot; SetL1 7; Prune false 3; Restart false;
+              Prune true 6; Store (blk 12 212 211 [6]); Restart true; Revert; Revert].
 
 Example C05_crash_nonvacuous :
   ops_ok 4 history st0 = true /\
